@@ -85,6 +85,18 @@ def Src.or (x y : Src) : Src :=
       else if g = g' ∧ j = j' then .c true
       else .ors (insertLit ⟨g, j, n⟩ [⟨g', j', n'⟩])
 
+/-- `x ^ y` on one position: constants, an input bit against a constant, or the same input bit twice -/
+def Src.xor (x y : Src) : Src :=
+  match x, y with
+  | .top, _ => .top
+  | _, .top => .top
+  | .c false, s => s
+  | s, .c false => s
+  | .c true, s => s.not
+  | s, .c true => s.not
+  | .inp g j n, .inp g' j' n' => if g = g' ∧ j = j' then .c (n != n') else .top
+  | _, _ => .top
+
 /-- `if c { x } else { y }`, bit by bit -/
 def Src.mux (c x y : Src) : Src :=
   if c = .top ∨ x = .top ∨ y = .top then .top
@@ -126,6 +138,11 @@ def nonzero : List Src → Src
   | [] => .c false
   | s :: l => if s = .c false then nonzero l else if l.all (fun t => t == .c false) then s else
       (if s = .c true then .c true else .top)
+
+/-- `x == y` for a constant `y` as one bit, if expressible: every position must agree with `y`'s bit -/
+def eqConst : List Src → Nat → Src
+  | [], y => .c (y == 0)
+  | s :: l, y => Src.and (if y % 2 == 1 then s else s.not) (eqConst l (y / 2))
 
 /-- symbolic values -/
 inductive SVal where
@@ -236,6 +253,12 @@ def binS (op : BinOp) (x y : SVal) : Option SRes :=
       match isConst a, isConst b with
       | some x, some y => some (.ok (.bool (.c (decide (x < y)))))
       | _, _ => none
+  | .bxor, .int t a, .int t' b => if t = t' then mkInt t (List.zipWith Src.xor a b) else none
+  | .eqq, .int t a, .int t' b =>
+      if t ≠ t' then none else
+      match isConst b with
+      | some y => if eqConst a y = .top then none else some (.ok (.bool (eqConst a y)))
+      | none => none
   | _, _, _ => none
 
 /-- Rust `as` on symbolic bits -/
